@@ -76,6 +76,8 @@ def gen_plan(seed, tier):
     if r.chance(1, 4):   # a blocked sem_wait of one run is interrupted by a signal (mfront embedded in an application that installs handlers)
         for _ in range(r.range(1, 3)):
             faults.append([r.range(0, nruns - 1), r.range(1, 8), 1])
+    if r.chance(1, 5):   # sem_open fails in one run (descriptor or memory exhaustion at that instant)
+        faults.append([r.range(0, nruns - 1), 0, 2])
     return {"params": [seq], "runs": runs, "faults": faults}
 
 
@@ -84,7 +86,7 @@ def describe(plan):
     for i, t in enumerate(plan["runs"]):
         s += " r%d[%s]" % (i, " ".join(t))
     for f in plan["faults"]:
-        s += (" fault:EINTR(run %d, blocked wait at its request #%d)" if len(f) >= 3 and f[2] == 1 else " fault:kill(run %d at its request #%d)") % (f[0], f[1])
+        s += (" fault:sem_open-fails(run %d%.0s)" if len(f) >= 3 and f[2] == 2 else " fault:EINTR(run %d, blocked wait at its request #%d)" if len(f) >= 3 and f[2] == 1 else " fault:kill(run %d at its request #%d)") % (f[0], f[1])
     return s
 
 
@@ -131,6 +133,7 @@ def run_history(plan, seed, decisions, launcher):
     runs = plan["runs"]
     faults = {(f[0], f[1]) for f in plan["faults"] if len(f) >= 2 and (len(f) < 3 or f[2] == 0)}     # kill before the request
     efaults = {(f[0], f[1]) for f in plan["faults"] if len(f) >= 3 and f[2] == 1}                     # a blocked sem_wait is interrupted by a signal (EINTR)
+    ofaults = {f[0] for f in plan["faults"] if len(f) >= 3 and f[2] == 2}                             # sem_open of that run fails (EMFILE / ENFILE / ENOMEM ...)
     procs = {}
     nxt = 0
     # named semaphores: a name designates an object until it is unlinked; processes keep the object they opened
@@ -189,6 +192,7 @@ def run_history(plan, seed, decisions, launcher):
                 actions.append(("grant", p.idx))
             if not actions:
                 break
+            outside = None
             steps += 1
             if steps > 5000:
                 violation = ("no-progress", "step budget exhausted")
@@ -233,7 +237,9 @@ def run_history(plan, seed, decisions, launcher):
                     reply = b"K"
                     k = req[0]
                     o = pobj.get(p.idx)
-                    if k == "O":
+                    if k == "O" and p.idx in ofaults:
+                        reply = b"E"; ofaults.discard(p.idx); bump("sem_open_failure_injected")
+                    elif k == "O":
                         parts = req.split()
                         nm = parts[1] if len(parts) > 1 else "?"
                         if nm in names:
@@ -274,6 +280,10 @@ def run_history(plan, seed, decisions, launcher):
                             holders.add(p.idx)
                         elif m == "EXIT":
                             holders.discard(p.idx)
+                        elif m.startswith("REG"):
+                            bump("registry_accesses_announced")
+                            if p.idx not in wholders:
+                                outside = (p.idx, m)
                     trace.append("r%d %s%s" % (p.idx, req, "" if reply[:1] in (b"K", b"V") else " -> error"))
                     p.pending = None
                     p.sock.sendall(reply)
@@ -287,7 +297,10 @@ def run_history(plan, seed, decisions, launcher):
                 bump("conservation_broken_steps")
             if len(objs) > 1:
                 bump("steps_with_several_semaphore_objects")
-            if len(holders) > INITIAL:
+            if outside is not None and violation is None:
+                what = {"REGOPENR": "opens src/targets.lst for reading", "REGOPENW": "opens (truncates) src/targets.lst for writing", "REGWRITE": "writes to src/targets.lst", "REGCLOSE": "closes (flushes) src/targets.lst"}.get(outside[1], outside[1])
+                violation = ("protected-file-accessed-outside-the-lock", "run %d %s while it does not hold the lock (holders of the semaphore at that instant: %s)" % (outside[0], what, sorted(wholders)))
+            elif len(holders) > INITIAL:
                 violation = ("mutual-exclusion", "%d processes inside a lock-protected section at once: runs %s (semaphore value %s)" % (len(holders), sorted(holders), count))
             elif len(wholders) > INITIAL:
                 violation = ("mutual-exclusion", "%d processes hold the semaphore at once: runs %s (semaphore value %s)" % (len(wholders), sorted(wholders), count))
@@ -339,7 +352,13 @@ def mfront_launcher(so, workdir):
         k = int(tokens[0][1:]) % len(corpus) if tokens and tokens[0][1:].isdigit() else 0
         env = tfel_env()
         env.update({"VSIM_SEM_FD": str(cs.fileno()), "LD_PRELOAD": so})
-        return subprocess.Popen([mf, "--interface=c", corpus[k]], cwd=workdir, pass_fds=[cs.fileno()], env=env, stdin=subprocess.DEVNULL, stdout=subprocess.DEVNULL, stderr=subprocess.DEVNULL)
+        args = ["--interface=c", corpus[k]]
+        if tokens and tokens[0].startswith("B"):   # failing invocations: they end in mfront's error / terminate paths
+            bad = os.path.join(workdir, "invalid.mfront")
+            if not os.path.exists(bad):
+                open(bad, "w").write("@DSL MaterialLaw;\n@Law Broken;\n@Output y;\n@Function{ y = ; \n")
+            args = [["--no-such-option"], ["--interface=c", os.path.join(workdir, "does-not-exist.mfront")], ["--interface=c", bad]][k % 3]
+        return subprocess.Popen([mf] + args, cwd=workdir, pass_fds=[cs.fileno()], env=env, stdin=subprocess.DEVNULL, stdout=subprocess.DEVNULL, stderr=subprocess.DEVNULL)
     return launch
 
 
@@ -347,10 +366,12 @@ def gen_real_plan(seed):
     r = SM64(seed)
     nruns = r.range(2, 5)
     seq = r.range(0, nruns - 1) if r.chance(2, 3) else 0
-    runs = [["F%d" % r.range(0, 5)] for _ in range(nruns)]
+    runs = [["F%d" % r.range(0, 5)] if not r.chance(1, 5) else ["B%d" % r.range(0, 2)] for _ in range(nruns)]   # B: an invocation that fails (bad option, missing file, invalid file)
     faults = [[r.range(0, nruns - 1), r.range(0, 6)]] if r.chance(1, 4) else []
     if r.chance(1, 4):
         faults.append([r.range(0, nruns - 1), r.range(1, 6), 1])
+    if r.chance(1, 5):
+        faults.append([r.range(0, nruns - 1), 0, 2])
     return {"params": [seq], "runs": runs, "faults": faults, "real": 1}
 
 
